@@ -243,8 +243,8 @@ impl Check for C11 {
     }
     fn runs(&self, tier: Tier) -> u64 {
         match tier {
-            Tier::Quick => 200_000,
-            Tier::Thorough => 15_000_000,
+            Tier::Quick => 400_000,
+            Tier::Thorough => 80_000_000,
         }
     }
     fn generate(&self, rng: &mut Rng, index: u64, tier: Tier) -> Scenario {
@@ -260,9 +260,50 @@ impl Check for C11 {
         }
         let fsize = FAMILY_SIZE[spec.fam as usize];
         let actual = spec.payload_len().min(65535);
-        let kind = rng.below(10);
+        let kind = rng.below(12);
         let stream: Vec<u8>;
         match kind {
+            10 | 11 => {
+                // a raw byte slice handed to TypeLengthValues::from, not bounded by a header:
+                // sections above 64 KiB and TLVs with the largest declared lengths live here
+                sc.sub = "raw_section".into();
+                sc.set_tag("fault", "raw_section");
+                let mut section: Vec<u8> = Vec::new();
+                let n_small = rng.range(0, 3);
+                for _ in 0..n_small {
+                    let l = rng.range(0, 6);
+                    section.extend(wire::tlv_to_bytes(rng.byte(), &rng.bytes(l)));
+                }
+                if rng.chance(2, 3) {
+                    let declared = *rng.pick(&[65535usize, 65534, 65533, 65532, 65531, 32768, 32767, 256, 255]);
+                    section.push(rng.byte());
+                    section.extend_from_slice(&(declared as u16).to_be_bytes());
+                    // value present: exact, short by 1..3, or followed by more TLVs
+                    let present = match rng.below(4) {
+                        0 => declared,
+                        1 => declared.saturating_sub(rng.range(1, 3)),
+                        2 => declared,
+                        _ => rng.range(0, declared),
+                    };
+                    let fill = rng.byte();
+                    section.extend(std::iter::repeat(fill).take(present));
+                    if present == declared && rng.chance(1, 2) {
+                        let l = rng.range(0, 4);
+                        section.extend(wire::tlv_to_bytes(4, &rng.bytes(l)));
+                        if rng.chance(1, 3) {
+                            let t = rng.range(1, 2);
+                            section.extend(rng.bytes(t));
+                        }
+                    }
+                } else if rng.chance(1, 2) {
+                    section.extend(small_alphabet_section(rng));
+                }
+                stream = section;
+                sc.intended_header_len = stream.len();
+                sc.events = vec![Ev::Deliver(stream.len()), Ev::Stall];
+                sc.stream = stream;
+                return sc;
+            }
             0..=3 => {
                 // declared length cuts the TLV area at one point (real Builder::set_length)
                 let cut = match rng.below(4) {
@@ -366,6 +407,31 @@ impl Check for C11 {
         if let Some(f) = sc.tag("fault") {
             st.hit_dyn(format!("fault:{}", f));
         }
+        if sc.sub == "raw_section" {
+            st.distinct(fnv(&sc.stream) ^ sc.aux);
+            st.hit("probe:raw_section");
+            let section = &sc.stream;
+            let r = guard(|| {
+                let mut j = Judge { st: &mut *st };
+                j.judge(
+                    section,
+                    TypeLengthValues::from(&section[..]),
+                    sc.aux,
+                    "TypeLengthValues::from(&[u8])",
+                )
+            });
+            match r {
+                Err(_) => st.hit("skip:panic"),
+                Ok(None) => {}
+                Ok(Some((clause, res, detail))) => {
+                    let mut v = viol("C11", clause, Entry::V2, section, res, detail);
+                    v.entry = "raw".into();
+                    v.shape = section_shape(section);
+                    out.push(v);
+                }
+            }
+            return out;
+        }
         if sc.stream.len() < 16 || !is_v2_stream(&sc.stream) {
             st.hit("skip:not_v2");
             return out;
@@ -458,7 +524,7 @@ impl Check for C11 {
     }
 
     fn required_probes(&self, tier: Tier) -> Vec<&'static str> {
-        let mut v = vec![
+        let v = vec![
             "probe:section_of_accepted_header",
             "probe:tlv_len_0",
             "probe:tlv_len_1",
@@ -471,13 +537,13 @@ impl Check for C11 {
             "probe:next_after_error",
             "probe:next_after_end",
             "probe:copy_driven",
+            "probe:raw_section",
+            "probe:tlv_len_65535",
             "fault:length_lie_real_builder",
             "fault:corrupt_tlv_length",
             "fault:junk_section",
         ];
-        if tier == Tier::Thorough {
-            v.push("probe:tlv_len_65535");
-        }
+        let _ = tier;
         v
     }
     fn rule(&self) -> String {
